@@ -464,10 +464,9 @@ Proof.
 Qed.
 
 Lemma set_afc3_creates h pay : let l := Iso.mkLpkt h Iso.NoAF pay in Iso.wf_lpkt l ->
-  exists rest, len rest = 182 /\
-    fst (SetAdaptationFieldControl (Iso.ser_pkt l) 3) =
-      Iso.ser_hdr (Iso.with_afc h 3) ++ 182 :: Iso.ser_af_body Iso.laf0 ++ rest /\
-    HasAdaptationField (Iso.ser_hdr (Iso.with_afc h 3) ++ pay) = true.
+  SetAdaptationFieldControl (Iso.ser_pkt l) 3 =
+    (Iso.ser_pkt (Iso.mkLpkt (Iso.with_afc h 3) (Iso.AF Iso.laf0 (repeatN 255 181)) [255]), None) /\
+  HasAdaptationField (Iso.ser_hdr (Iso.with_afc h 3) ++ pay) = true.
 Proof.
   intros l W.
   pose proof (wf_is_pkt l W) as PK. pose proof (wf_hdr_of l W) as HO. pose proof (wf_len l W) as L188.
@@ -517,11 +516,65 @@ Proof.
   rewrite LQ0. change (183 =? 183) with true. cbv iota.
   assert (AFP.stuffingStart Q0 = 6) as SQ0.
   { unfold Q0. rewrite stuffing_start_body; [reflexivity | reflexivity | exact laf0_ok | cbn; lia]. }
-  rewrite SQ0. change (6 <? PacketSize) with true. cbv iota. cbn [fst].
+  rewrite SQ0. change (6 <? PacketSize) with true. cbv iota.
   unfold Q0. change 182%Z with (Z.of_N 182).
   rewrite set_len_stuff; [| reflexivity | exact laf0_ok | rewrite len_repeatN; reflexivity | cbn; lia | lia].
-  eexists. split; [|split; [reflexivity | first [exact HAT | reflexivity]]].
-  rewrite len_app, len_repeatN, len_dropN, len_repeatN. reflexivity.
+  split; [|first [exact HAT | reflexivity]].
+  rewrite ser_pkt_af. fold h3. reflexivity.
+Qed.
+Lemma hdr_ok_afc2 h : Iso.hdr_ok h -> Iso.hdr_ok (Iso.with_afc h 2).
+Proof.
+  intros (A & B & C' & D & F & G & I & J). unfold Iso.hdr_ok, Iso.with_afc.
+  cbn [Iso.sync Iso.tei Iso.pusi Iso.tp Iso.pid Iso.tsc Iso.afc Iso.cc]. repeat split; try assumption; lia.
+Qed.
+Lemma set_afc2_creates h pay : let l := Iso.mkLpkt h Iso.NoAF pay in Iso.wf_lpkt l ->
+  SetAdaptationFieldControl (Iso.ser_pkt l) 2 =
+    (Iso.ser_pkt (Iso.mkLpkt (Iso.with_afc h 2) (Iso.AF Iso.laf0 (repeatN 255 182)) []), None).
+Proof.
+  intros l W.
+  pose proof (wf_is_pkt l W) as PK. pose proof (wf_hdr_of l W) as HO. pose proof (wf_len l W) as L188.
+  destruct (wf_flags l W) as (_ & HA & _).
+  assert (Iso.afc h = 1) as A1 by (destruct W as (_ & _ & _ & _ & _ & C); exact C).
+  cbn [Iso.lh l] in HA, HO. rewrite A1 in HA. change (1 / 2 =? 1) with false in HA.
+  assert (Iso.hdr_ok h) as HOK by (destruct W as (X & _); exact X).
+  assert (is_bytes pay) as PB by (destruct W as (_ & _ & _ & X & _); exact X).
+  set (p := Iso.ser_pkt l) in *.
+  assert (p = Iso.ser_hdr h ++ pay) as PE by reflexivity.
+  assert (len pay = 184) as LP by (rewrite PE in L188; rewrite len_app, len_ser_hdr in L188; lia).
+  set (h3 := Iso.with_afc h 2). set (T := Iso.ser_hdr h3 ++ pay).
+  pose proof (hdr_ok_afc2 h HOK) as HOK3. fold h3 in HOK3.
+  assert (is_pkt T) as PT.
+  { split; [unfold T; rewrite app_length; unfold len in LP; cbn [length Iso.ser_hdr]; lia|].
+    unfold T. apply is_bytes_app. split; [apply ser_hdr_bytes; exact HOK3 | exact PB]. }
+  (* the write to byte 3 *)
+  destruct (set_afc_byte p PK 2 ltac:(lia)) as (E & F & P1). cbv zeta in E, F, P1.
+  unfold SetAdaptationFieldControl. rewrite HA.
+  match goal with |- context [upd p 3 ?x] => set (p1 := upd p 3 x) in * end.
+  assert (p1 = T) as P1T.
+  { apply hdr_tail_ext; try assumption.
+    - rewrite E, HO. unfold T. symmetry. apply hdr_of_ser. exact HOK3.
+    - intros j J. rewrite F by lia. unfold get, T. rewrite PE.
+      rewrite !nthN_app_r by (rewrite len_ser_hdr; lia). rewrite !len_ser_hdr. reflexivity. }
+  rewrite P1T.
+  assert (HasAdaptationField T = true) as HAT.
+  { destruct (byte3_facts T PT) as (_ & _ & _ & _ & _ & _ & _ & X). rewrite X. unfold T. rewrite hdr_of_ser by exact HOK3. reflexivity. }
+  rewrite HAT. cbn [negb andb]. change (2 =? 3) with false. cbv iota.
+  (* initAdaptationField *)
+  destruct pay as [|x0 [|x1 pay2]]; [rewrite len_nil in LP; lia | rewrite len_cons, len_nil in LP; lia|].
+  rewrite !len_cons in LP.
+  set (Q0 := Iso.ser_hdr h3 ++ 183 :: Iso.ser_af_body Iso.laf0 ++ repeatN 255 182).
+  assert (AFP.initAdaptationField T = Q0) as INIT.
+  { unfold AFP.initAdaptationField, T, fill, PacketSize.
+    rewrite (upd_app_at (Iso.ser_hdr h3) _ _ 183 4) by reflexivity.
+    replace (Iso.ser_hdr h3 ++ 183 :: x1 :: pay2) with ((Iso.ser_hdr h3 ++ [183]) ++ x1 :: pay2) by (rewrite <- app_assoc; reflexivity).
+    rewrite (upd_app_at _ _ _ 0 5) by reflexivity.
+    replace ((Iso.ser_hdr h3 ++ [183]) ++ 0 :: pay2) with ((Iso.ser_hdr h3 ++ [183; 0]) ++ pay2) by (rewrite <- !app_assoc; reflexivity).
+    change (188 - 6) with 182.
+    rewrite blit_app_over; [| reflexivity | rewrite repeatN_length; unfold len in LP; lia].
+    replace (length pay2) with (N.to_nat 182) by (unfold len in LP; lia).
+    rewrite <- (repeatN_length 255 182) at 1. rewrite firstn_all.
+    unfold Q0. rewrite <- app_assoc. reflexivity. }
+  rewrite INIT. unfold Q0. rewrite ser_pkt_af. fold h3. rewrite app_nil_r. reflexivity.
 Qed.
 
 Lemma set_payload_noaf_short h pay d : let l := Iso.mkLpkt h Iso.NoAF pay in
@@ -529,7 +582,10 @@ Lemma set_payload_noaf_short h pay d : let l := Iso.mkLpkt h Iso.NoAF pay in
   SetPayload_m (Iso.ser_pkt l) d = (Iso.ser_pkt (Iso.set_payload l d), Ok (N.min (len d) (Iso.capacity l))).
 Proof.
   intros l W LD.
-  destruct (set_afc3_creates h pay W) as (rest & LR & SA & HA3). fold l in SA.
+  destruct (set_afc3_creates h pay W) as (SA & HA3). fold l in SA. rewrite ser_pkt_af in SA.
+  change (len (Iso.ser_af_body Iso.laf0) + len (repeatN 255 181)) with 182 in SA.
+  set (rest := repeatN 255 181 ++ [255]) in *.
+  assert (len rest = 182) as LR by reflexivity.
   pose proof (wf_len l W) as L188. destruct (wf_flags l W) as (AFC & HA & _).
   assert (Iso.afc h = 1) as A1 by (destruct W as (_ & _ & _ & _ & _ & C); exact C).
   cbn [Iso.lh l] in AFC, HA. rewrite A1 in AFC, HA. change (1 / 2 =? 1) with false in HA.
@@ -539,7 +595,7 @@ Proof.
   unfold SetPayload_m. rewrite AFC. change (1 =? 2) with false. cbv iota. rewrite PS, SM.
   change (PacketSize <? 4) with false. cbn [orb]. unfold SetPayload_prepare, freeSpace. rewrite SM.
   replace (zlen d <? 188 - Z.of_N 4)%Z with true by (symmetry; apply Z.ltb_lt; unfold zlen, len in *; lia).
-  rewrite SA.
+  rewrite SA. cbn [fst].
   assert (AFP.Length (Iso.ser_hdr h3 ++ 182 :: Iso.ser_af_body Iso.laf0 ++ rest) = 182) as L1
     by (unfold AFP.Length; apply q_get4; reflexivity).
   rewrite L1. change (182 =? 0) with false. cbv iota.
@@ -603,3 +659,10 @@ Proof.
   unfold Iso.set_payload. rewrite len_nil. replace (0 <? Iso.capacity l) with true by (symmetry; apply N.ltb_lt; lia).
   split; reflexivity.
 Qed.
+
+Lemma set_afc_creates h pay : let l := Iso.mkLpkt h Iso.NoAF pay in Iso.wf_lpkt l ->
+  SetAdaptationFieldControl (Iso.ser_pkt l) 2 =
+    (Iso.ser_pkt (Iso.mkLpkt (Iso.with_afc h 2) (Iso.AF Iso.laf0 (repeatN 255 182)) []), None) /\
+  SetAdaptationFieldControl (Iso.ser_pkt l) 3 =
+    (Iso.ser_pkt (Iso.mkLpkt (Iso.with_afc h 3) (Iso.AF Iso.laf0 (repeatN 255 181)) [255]), None).
+Proof. intros l W. split; [exact (set_afc2_creates h pay W) | exact (proj1 (set_afc3_creates h pay W))]. Qed.
